@@ -1410,10 +1410,15 @@ func scnGenesis(g *Gen, budget int, arg string) {
 			first = false
 			// the default genesis (what a new chain starts from before its operators edit it): what it is, that it
 			// validates, what a chain initialised from it looks like and answers, and that it survives export + import
-			g.emit(Op{Kind: "genesis-default", KV: newKV()})
-			def := genSpec{burnPaused: "0", sendPaused: "0", maxBody: "-", nextNonce: "-", threshold: "-"}
-			g.emit(Op{Kind: "genesis-validate", KV: def.kv()})
-			g.emit(Op{Kind: "genesis-init", KV: def.kv()})
+			dl := g.emit(Op{Kind: "genesis-default", KV: newKV()})
+			def := genSpec{burnPaused: "0", sendPaused: "0", maxBody: "-", nextNonce: "-", threshold: "-"}.kv()
+			if strings.HasPrefix(dl, "out=ok ") {
+				// whatever the implementation's default genesis is (no property says what it must contain), it is a genesis:
+				// the ops that follow take IT as their input
+				def = ParseOp("x " + strings.TrimPrefix(dl, "out=ok ")).KV
+			}
+			g.emit(Op{Kind: "genesis-validate", KV: def})
+			g.emit(Op{Kind: "genesis-init", KV: def})
 			g.dump()
 			g.emit(Op{Kind: "genesis-export", KV: newKV()})
 			for _, q := range []string{"Roles", "SignatureThreshold", "MaxMessageBodySize", "NextAvailableNonce", "BurningAndMintingPaused", "SendingAndReceivingMessagesPaused"} {
